@@ -73,7 +73,7 @@ impl RuntimeProvider for SockProvider {
             (k, pick(&srv.tc, k), srv.idle, g.cur)
         };
         let limit = timeout.map(|d| d.as_millis() as u64);
-        sim.push(json!({"ev":"att","s":s,"p":"conn","n":k,"o":cur.0,"q":cur.1,"t":sim.now_ms(),"limit":limit.unwrap_or(0)}));
+        sim.push(json!({"ev":"att","s":s,"p":"conn","n":k,"o":cur.0,"q":cur.1,"rd":cur.2,"cd":cur.3,"t":sim.now_ms(),"limit":limit.unwrap_or(0)}));
         Box::pin(async move {
             let lim = limit.unwrap_or(u64::MAX / 4);
             let end = |res: &str| sim.push(json!({"ev":"end","s":s,"p":"conn","n":k,"t":sim.now_ms(),"res":res}));
@@ -122,10 +122,10 @@ fn plan(beh: &Beh, ta: u64, req: &Message, s: usize, tcp: bool, n: usize) -> Opt
         "answer" => Some(answer_message(req, s, tcp)),
         "nx" => Some(nx_message(req)),
         "trunc" => Some(trunc_message(req)),
-        "io" | "ioperm" => None,
+        "io" | "ioperm" | "recvfail" => None,
         other => panic!("behaviour {other} has no socket-level form"),
     };
-    let res = if beh.k == "ioperm" { "io".to_string() } else { beh.k.clone() };
+    let res = if beh.k == "ioperm" || beh.k == "recvfail" { "io".to_string() } else { beh.k.clone() };
     Some(Due { at, bytes: msg.map(|m| m.to_vec().expect("encode reply")), n, res })
 }
 
@@ -197,7 +197,12 @@ impl DnsUdpSocket for SimUdp {
             let n = *c;
             (n, pick(&g.cfg.servers[self.s - 1].udp, n), ta)
         };
-        self.sim.push(json!({"ev":"att","s":self.s,"p":"udp","n":n,"o":id,"q":q,"t":now}));
+        self.sim.push(json!({"ev":"att","s":self.s,"p":"udp","n":n,"o":id,"q":q,"rd":req.metadata.recursion_desired as u64,"cd":req.metadata.checking_disabled as u64,"t":now}));
+        if beh.k == "sendfail" {
+            // the local stack refuses the datagram at once: no route to the server
+            self.sim.push(json!({"ev":"end","s":self.s,"p":"udp","n":n,"t":now,"res":"io"}));
+            return Poll::Ready(Err(io::Error::new(io::ErrorKind::NetworkUnreachable, "network is unreachable")));
+        }
         let mut st = self.st.lock().unwrap();
         st.from = Some(target);
         if let Some(d) = plan(&beh, ta, &req, self.s, false, n) {
@@ -312,7 +317,7 @@ impl AsyncWrite for SimTcp {
                 (n, pick(&g.cfg.servers[self.s - 1].tcp, n), g.cfg.ta, g.cur)
             };
             // over TCP the multiplexer gives the request an id of its own: the caller is the one being served
-            self.sim.push(json!({"ev":"att","s":self.s,"p":"tcp","n":n,"o":cur.0,"q":q,"t":self.sim.now_ms()}));
+            self.sim.push(json!({"ev":"att","s":self.s,"p":"tcp","n":n,"o":cur.0,"q":q,"rd":req.metadata.recursion_desired as u64,"cd":req.metadata.checking_disabled as u64,"t":self.sim.now_ms()}));
             st.outstanding += 1;
             st.close_at = None;
             if let Some(d) = plan(&beh, ta, &req, self.s, true, n) {
